@@ -267,6 +267,19 @@ def run(pid, tier, seed, gate, replay=None):
             ops += ["close", "idxdump", "reopen"] + [f"sload k={k}" for k in range(1, n + 1)] + [f"get k={k}" for k in range(1, n + 1)]
             hs.append(H.cfg_line(policy="woi", algo="fifo", mem=1, univ=n + 1, block=1048576, blocks=8, index=4096)
                       + "\n" + "\n".join(ops) + "\n")
+        # more entries in one block than one blob index lists (170 with a 4 KiB index): the entries of the second and
+        # later blobs must be read back at the addresses the flusher gave the indexer - before any restart, and after
+        for i in range(3 if tier == "thorough" else 1):
+            n = rng.choice([200, 240, 345])
+            ops, ver = [], 1
+            for k in range(1, n + 1):
+                ops.append(f"ins k={k} ver={ver} size=3000"); ver += 1
+                if k % rng.choice([5, 7, 11]) == 0:
+                    ops.append("wait")
+            ops += ["wait"] + [f"get k={k}" for k in range(1, n + 1)]
+            ops += ["close", "idxdump", "reopen"] + [f"sload k={k}" for k in range(1, n + 1)] + [f"get k={k}" for k in range(1, n + 1)]
+            hs.append(H.cfg_line(policy="woi", algo="fifo", mem=1, univ=n + 1, block=2097152, blocks=4, index=4096)
+                      + "\n" + "\n".join(ops) + "\n")
         e2e_n = len(hs)
         for j, (sc, (cfgl, lines)) in enumerate(zip(hs, H.run_many(hs))):
             o = H.oracle_c01(cfgl, lines)
